@@ -148,7 +148,15 @@ func (p *pipe) receiver() {
 					// NB: If we ever do work to break
 					// up the locking, we will need to
 					// revisit this.
-					c.recvQ <- m
+					// With a zero length queue there is
+					// no room to make: hand the message
+					// to a waiting receiver or drop it,
+					// but never block holding the lock.
+					select {
+					case c.recvQ <- m:
+					default:
+						m.Free()
+					}
 				}
 			}
 		}
